@@ -76,7 +76,7 @@ F("optional-predicate-le2", ["C04"], (B_, "            predicate=lambda x: x <= 
 F("required-predicate-ge1", ["C04"], (B_, "            predicate=lambda x: x == 1,", "            predicate=lambda x: x >= 1,"))
 F("apply-args-no-admission", ["C04", "C13"], (B_, "                if arg not in self.listaggregates:\n                    msg = f\"{clsnm} can't contain {arg} as list item: {member}\"\n                    raise TypeError(msg)\n", "                if arg not in self.listaggregates:\n                    logger.debug(f\"{clsnm}: unexpected list item {arg}\")\n"))
 F("count-truthy-not-none", ["C04"], (B_, "count = sum([kwargs.get(m, None) is not None for m in mutex])", "count = sum([bool(kwargs.get(m, None)) for m in mutex])"))
-F("position-not-threaded", ["C04", "C07"], (B_, "            return args, kwargs, index, is_listmember", "            return args, kwargs, prev_index, is_listmember"))
+F("position-not-threaded", ["C04"], (B_, "            return args, kwargs, index, is_listmember", "            return args, kwargs, prev_index, is_listmember"))
 F("descriptor-stores-raw", ["C04", "C03"], (T_, "        obj.__dict__[self.name] = self.convert(value)", "        obj.__dict__[self.name] = value"))
 B("predicate-lt2", ["C04"], (B_, "            predicate=lambda x: x <= 1,", "            predicate=lambda x: x < 2,"))
 B("order-guard-flipped", ["C04"], (B_, "            if index <= prev_index and not (is_listmember and prev_is_listmember):", "            if prev_index >= index and not (is_listmember and prev_is_listmember):"))
@@ -127,3 +127,37 @@ B("accept-without-explicit-ofx", ["C14"], (C_, '"Accept": "*/*, {}, application/
 B("dryrun-negated-form", ["C14"], (C_, "        if dryrun:\n            return BytesIO(request)\n\n        if url is None:\n            url = self.url\n\n        # NB: we resolve the url opener here instead of in __init__ because the tests\n        #     mock urlopen after instantiating the OFXClient object\n        response = self.post_request(url, request, timeout)\n        return BytesIO(response)", "        if not dryrun:\n            if url is None:\n                url = self.url\n            response = self.post_request(url, request, timeout)\n            return BytesIO(response)\n        return BytesIO(request)"))
 B("log-in-post", ["C14"], (C_, "            logger.info(\"Using urllib to post request\")\n", "            logger.info(\"Using urllib to post request\")\n            logger.debug(f\"POST {url}\")\n"))
 B("placeholder-two-assignments", ["C14"], (C_, "        user = password = AUTH_PLACEHOLDER", "        user = AUTH_PLACEHOLDER\n        password = AUTH_PLACEHOLDER"))
+
+# ---------------------------------------------------------------- C17 / purity
+SEC_ = "ofxtools/models/invest/securities.py"
+F("decimal-cache", ["C17"], (T_, "@call_signature(scale=None)\nclass Decimal(Element):", "_DEC_CACHE = {}\n\n\n@call_signature(scale=None)\nclass Decimal(Element):"), (T_, "        # Handle Euro-style decimal separators (comma)\n        try:\n            dec = decimal.Decimal(value)", "        if value in _DEC_CACHE:\n            return _DEC_CACHE[value]\n        # Handle Euro-style decimal separators (comma)\n        try:\n            dec = decimal.Decimal(value)"), (T_, "            dec = dec.quantize(self.scale)\n\n        return dec", "            dec = dec.quantize(self.scale)\n\n        _DEC_CACHE[value] = dec\n        return dec"))
+F("mail-groom-no-copy", ["C17"], ("ofxtools/models/email.py", "        # Keep input free of side effects\n        elem = deepcopy(elem)\n\n        frm = elem.find(\"./FROM\")", "        frm = elem.find(\"./FROM\")"))
+F("base-groom-no-copy", ["C17"], (B_, "        elem = deepcopy(elem)\n\n        for child in set(elem):", "        for child in set(elem):"))
+F("mfinfo-ungroom-no-copy", ["C17"], (SEC_, "        # Keep input free of side effects\n        elem = deepcopy(elem)\n\n        yld = elem.find(\"./YLD\")\n        if yld is not None:\n            logger.debug(\"Renaming <YLD> to <YIELD>\")\n            yld.tag = \"YIELD\"\n\n        return super(MFINFO, MFINFO).ungroom(elem)", "        yld = elem.find(\"./YLD\")\n        if yld is not None:\n            logger.debug(\"Renaming <YLD> to <YIELD>\")\n            yld.tag = \"YIELD\"\n\n        return super(MFINFO, MFINFO).ungroom(elem)"))
+F("default-builder-instance", ["C17"], (P_, "    def parse(self, source, parser=None) -> ET.Element:", "    def parse(self, source, parser=TreeBuilder()) -> ET.Element:"), (P_, "class OFXTree(ET.ElementTree):", "class _Fwd:\n    pass\n\n\nclass OFXTree(ET.ElementTree):"))
+F("module-level-builder", ["C17"], (P_, "def main(*files):", "_BUILDER = TreeBuilder()\n\n\ndef main(*files):"))
+F("descriptor-keeps-and-reads-last", ["C17"], (T_, "        obj.__dict__[self.name] = self.convert(value)", "        if getattr(self, \"last_raw\", None) == value:\n            obj.__dict__[self.name] = self.last_val\n            return\n        self.last_raw = value\n        self.last_val = self.convert(value)\n        obj.__dict__[self.name] = self.last_val"))
+F("register-other-handler", ["C17"], (T_, "        self.unconvert.register(datetime.datetime, self._unconvert_datetime)", "        self.unconvert.register(datetime.datetime, self._unconvert_none)"))
+F("bool-mapping-mutated", ["C17"], (T_, "        try:\n            return self.mapping[value]\n        except KeyError:", "        try:\n            self.mapping.setdefault(value.upper(), self.mapping.get(value.upper()[:1]))\n            return self.mapping[value]\n        except KeyError:"))
+F("to-etree-cached-on-instance", ["C17"], (B_, "        cls = self.__class__\n        root = ET.Element(cls.__name__)", "        if getattr(self, \"_etree\", None) is not None:\n            return self._etree\n        cls = self.__class__\n        root = ET.Element(cls.__name__)"), (B_, "        # Hook to modify `ET.ElementTree` after conversion\n        return cls.ungroom(root)", "        # Hook to modify `ET.ElementTree` after conversion\n        self._etree = cls.ungroom(root)\n        return self._etree"))
+F("spec-cache-on-class", ["C17"], (B_, "        return {k: v for k, v in cls._superdict.items() if predicate(v)}", "        cache = Aggregate.__dict__.get(\"_filter_cache\")\n        key = (cls, predicate.__code__.co_code)\n        if key not in _FILTER_CACHE:\n            _FILTER_CACHE[key] = {k: v for k, v in cls._superdict.items() if predicate(v)}\n        return _FILTER_CACHE[key]"), (B_, "class Aggregate(list):", "_FILTER_CACHE = {}\n\n\nclass Aggregate(list):"))
+F("lru-cache-from-etree", ["C17"], (B_, "    @staticmethod\n    def groom(elem: ET.Element) -> ET.Element:", "    @staticmethod\n    @functools.lru_cache(maxsize=128)\n    def groom(elem: ET.Element) -> ET.Element:"))
+F("convert-pops-children", ["C17"], (B_, "        args, kwargs = functools.reduce(update_args, elem, initial)[:2]\n", "        args, kwargs = functools.reduce(update_args, elem, initial)[:2]\n        elem.clear()\n"), (B_, "        # Hook to modify incoming ``ET.Element`` before conversion\n        elem = cls.groom(elem)\n", "        # Hook to modify incoming ``ET.Element`` before conversion\n        groomed = cls.groom(elem)\n"))
+B("descriptor-write-only-attr", ["C17"], (T_, "        obj.__dict__[self.name] = self.convert(value)", "        self.last_seen_raw = value\n        obj.__dict__[self.name] = self.convert(value)"))
+B("drop-runtime-register", ["C17", "C10", "C09"], (T_, "        self.unconvert.register(datetime.datetime, self._unconvert_datetime)\n", ""))
+B("groom-copy-via-copy-module", ["C17"], ("ofxtools/models/email.py", "        # Keep input free of side effects\n        elem = deepcopy(elem)\n\n        frm = elem.find(\"./FROM\")", "        elem = deepcopy(elem)  # defensive copy\n        logger.debug(\"grooming MAIL\")\n\n        frm = elem.find(\"./FROM\")"))
+B("new-pure-helper", ["C17"], (U_, "def fixpath(path: str) -> str:", "def squares(n: int) -> list:\n    out = []\n    for i in range(n):\n        out.append(i * i)\n    return out\n\n\ndef fixpath(path: str) -> str:"))
+
+# ---------------------------------------------------------------- C07 / unknown tags
+F("unknown-resets-order-state", ["C07"], (B_, "                warnings.warn(msg, category=UnknownTagWarning)\n                return accum", "                warnings.warn(msg, category=UnknownTagWarning)\n                return args, kwargs, -1, False"))
+F("unknown-clears-listmember-flag", ["C07"], (B_, "                warnings.warn(msg, category=UnknownTagWarning)\n                return accum", "                warnings.warn(msg, category=UnknownTagWarning)\n                return args, kwargs, prev_index, False"))
+F("unknown-raises", ["C07"], (B_, "                warnings.warn(msg, category=UnknownTagWarning)\n                return accum", "                raise OFXSpecError(msg)"))
+F("mfinfo-groom-no-chain", ["C07"], (SEC_, "        return super(MFINFO, MFINFO).groom(elem)", "        return elem"))
+F("convert-before-lookup", ["C07"], (B_, "            args, kwargs, prev_index, prev_is_listmember = accum\n            attrname = elem.tag.lower()\n", "            args, kwargs, prev_index, prev_is_listmember = accum\n            attrname = elem.tag.lower()\n            parsed = elem.text or Aggregate.from_etree(elem)\n"))
+F("groom-descendant-search", ["C07"], (SEC_, '        yld = elem.find("./YIELD")', '        yld = elem.find(".//YIELD")', 2))
+F("groom-iter-search", ["C07"], ("ofxtools/models/email.py", '        frm = elem.find("./FROM")\n        if frm is not None:', '        for frm in elem.iter("FROM"):'))
+F("convert-skips-groom", ["C07"], (B_, "        # Hook to modify incoming ``ET.Element`` before conversion\n        elem = cls.groom(elem)\n", ""))
+F("unknown-stores-value", ["C07"], (B_, "                warnings.warn(msg, category=UnknownTagWarning)\n                return accum", "                warnings.warn(msg, category=UnknownTagWarning)\n                kwargs[attrname] = elem.text\n                return accum"))
+B("groom-keeps-vendor-tags", ["C07"], (B_, "        for child in set(elem):\n            if \".\" in child.tag:\n                logger.debug(f\"Removing extended tag <{child.tag}>\")\n                elem.remove(child)\n", ""))
+B("unknown-logs-too", ["C07"], (B_, "                warnings.warn(msg, category=UnknownTagWarning)\n                return accum", "                warnings.warn(msg, category=UnknownTagWarning)\n                logger.debug(msg)\n                return accum"))
+B("groom-find-without-dot", ["C07"], ("ofxtools/models/email.py", '        frm = elem.find("./FROM")', '        frm = elem.find("FROM")'))
